@@ -114,6 +114,25 @@ def run(prop: str, tier: str) -> int:
             walks = list(pool.map(_walk, [(C.seed() * 1000 + i, length, (0, 1, 2) if i % 3 == 0 else (0, 1), (1, 2, 3, 4) if i % 2 else (1, 2))
                                           for i in range(nwalks)], chunksize=8))
         traces = [p for ps, _ in dfs for p in ps] + [w for w in walks if w]
+        # (2b) directed schedules: an application is stopped while its subroutine is suspended inside a qfree (the
+        #      simulator hook that resets the physical qubit yields); another application allocates; the orphaned
+        #      subroutine is resumed before / after that
+        scripts = []
+        for A, B in ((0, 1), (1, 0), (2, 0)):
+            for k in (0, 1):
+                pre = [("init", A, 2), ("begin", A, "alloc%d" % k), ("step", A), ("step", A)]
+                both = pre + [("begin", A, "alloc%d" % (1 - k)), ("step", A), ("step", A)]
+                tail = [("step", B), ("begin", B, "free0"), ("step", B), ("step", B), ("stop", B),
+                        ("init", A, 1), ("begin", A, "alloc0"), ("step", A), ("step", A), ("stop", A)]
+                for head in (pre, both):
+                    mid = head + [("begin", A, "free%d" % k), ("abort", A)]
+                    scripts.append(mid + [("init", B, 1), ("begin", B, "alloc0"), ("step", B), ("zombie", A)] + tail)
+                    scripts.append(mid + [("zombie", A), ("init", B, 1), ("begin", B, "alloc0"), ("step", B)] + tail)
+                    scripts.append(mid + [("init", B, 2), ("begin", B, "alloc1"), ("step", B), ("step", B), ("begin", B, "alloc0"), ("step", B), ("zombie", A)] + tail)
+        directed = [rig.controller_script(sc) for sc in scripts]
+        if not all(any(e["a"] == "abort" for e in t) and any(e["a"] == "zombie" for e in t) for t in directed):
+            V.notes.append("qfree has no suspension point in this tree: the stop-inside-an-instruction schedules degenerate to ordinary steps")
+        traces += directed
         rows = [{"id": i + 1, "events": t} for i, t in enumerate(traces)]
         res = C.run_tlc_sharded("ControllerTrace", rows, tmp, shards=n)
         bad = {}
